@@ -292,8 +292,26 @@ func runCaseOnce(c *vlib.Ctx, idx, attempt int, self, bin, casesRoot, only strin
 	if cs.Child.NeverReady != "" {
 		c.Count("never_ready_children", 1)
 	}
+	if cs.KilledOnRequest && (cs.Child.HangGetState || (cs.Child.DieOn != "" && cs.Scenario != "child-dies-on-start-then-kill")) {
+		c.Count("deaths_during_kill_cases", 1)
+	}
 	var shape, order []string
+	killsInFlight := 0
 	for _, e := range evs {
+		switch e.Ev {
+		case "op-start", "op-end":
+			if e.Name == "kill" {
+				if e.Ev == "op-start" {
+					killsInFlight++
+				} else {
+					killsInFlight--
+				}
+			}
+		case "status":
+			if killsInFlight > 0 && isTerminalName(e.State) {
+				c.Count("terminal_reports_during_kill", 1)
+			}
+		}
 		switch e.Ev {
 		case "op-start":
 			c.Count("requests", 1)
